@@ -4,6 +4,7 @@ import (
 	"fmt"
 	"go/constant"
 	"go/types"
+	"strings"
 
 	"golang.org/x/tools/go/ssa"
 
@@ -23,6 +24,7 @@ func init() {
 			"R7 (ESP on the certificate upload — the gcsca function that receives the manifest and calls the gate): success after the gate is returned only where the key version's manifest entry was found or appended. " +
 			"R6 (ESP on storage/ops.WriteFile, the write primitive that R1–R4 treat as one event): it returns nil only after Storage.Writer, Write and Close (the commit of the object) all returned nil. " +
 			"Crash points at object granularity are the positions between write events, so R1+R2 give every prefix for every upload order. " +
+			"R8 (= C10.R5) rotate.Bootstrap calls Finalize only after both the root and the signing certificate were signed: one Finalize per operation, so no intermediate manifest names a primary key without a certificate. " +
 			"Not covered: partial writes inside one object, the dirty in-memory manifest after a failed Finalize, verification of the stored chain.",
 		Assumptions: []string{"go/types, go/ssa, VTA call graph", "storage/ops.WriteFile is the only write path to storage besides Client.Writer"},
 		Run:         runC11,
@@ -30,6 +32,12 @@ func init() {
 }
 
 func runC11(c *Ctx) {
+	// R8 = C10.R5: the callers keep one transaction per operation — rotate.Bootstrap finalizes only after both
+	// certificates were signed (a Finalize between them publishes a manifest that names a primary signing key whose
+	// certificate does not exist yet).
+	c.borrow("R8/C10.", runC10, func(rule, construct string) bool {
+		return rule == "R5" || (rule == "ESP" && strings.Contains(construct, "rotate.Bootstrap"))
+	})
 	gcsca := repoPath("sign/gcsca")
 	stypPkg := repoPath("sign/types")
 	storPkg := repoPath("storage/storagei")
